@@ -164,6 +164,47 @@ func patternCases(r *rand.Rand, n int) []Case {
 	return cases
 }
 
+// exhaustivePatternCases: EVERY sequence of up to maxLen tokens from a small alphabet of the directive grammar (markers,
+// keywords, white space of three kinds, a name, a dash pair, a brace reference) through every recogniser and through
+// processLine at two indentation levels — small-scope exhaustive, where patternCases samples.
+func exhaustivePatternCases(maxLen int) []Case {
+	toks := []string{"##!", ">", "+", "^", "$", "<", "=", " ", "\t", "include", "include-except", "define", "assemble", "cmdline", "a", "--", "{{a}}", "\f", "unix"}
+	var cases []Case
+	var rec func(prefix string, depth int)
+	batch := []string{}
+	flush := func() {
+		if len(batch) == 0 {
+			return
+		}
+		var ops []Op
+		for _, l := range batch {
+			for _, o := range patOps {
+				ops = append(ops, Op{o, [][]byte{[]byte(l)}})
+			}
+			ops = append(ops, Op{"format.processLine", [][]byte{[]byte(l), {}}}, Op{"format.processLine", [][]byte{[]byte(l), []byte("xx")}})
+		}
+		cases = append(cases, Case{Kind: "pattern-exhaustive", Ops: ops})
+		batch = nil
+	}
+	rec = func(prefix string, depth int) {
+		if depth > 0 {
+			batch = append(batch, prefix)
+			if len(batch) >= 8 {
+				flush()
+			}
+		}
+		if depth == maxLen {
+			return
+		}
+		for _, t := range toks {
+			rec(prefix+t, depth+1)
+		}
+	}
+	rec("", 0)
+	flush()
+	return cases
+}
+
 var hdr = "##! Please refer to the documentation at\n##! https://coreruleset.org/docs/development/regex_assembly/.\n\n"
 
 // canonical layout, read independently of the code (C09)
@@ -438,6 +479,14 @@ func genFormatCases(r *rand.Rand, tier string, withOracle bool) []Case {
 		nPat, nFile, nCli = 8000, 6000, 400
 	}
 	cases := patternCases(r, nPat)
+	if withOracle {
+		// small-scope exhaustive tie of the recognisers (C09 carries it; C10 shares the sampled stream)
+		if tier == "thorough" {
+			cases = append(cases, exhaustivePatternCases(4)...)
+		} else {
+			cases = append(cases, exhaustivePatternCases(3)...)
+		}
+	}
 	fixed := []string{"", "\n", "\n\n", hdr, strings.TrimSuffix(hdr, "\n"), hdr + "\n", "##! Please refer to the documentation at\n", "foo", "foo\n\n\n", "  foo\n\tbar\n",
 		"##!> assemble\nfoo\n##!<\n", "##!<\n", "##!> cmdline unix\n##!> assemble\na\n##!<\n##!<\nb\n", "##!+ i\n[A-Z]\n", "##!+ x\n", "##!> include a -- b\n", "a\r\nb\r\n", " \n \n"}
 	for _, f := range fixed {
